@@ -64,6 +64,12 @@ def scenario_docs():
         # a text-only environment whose body starts with a blank line (two text tokens)
         [env(N(), [], C('\n'), C('\n  '), T(2), C(' old\n')), T()],
         [math(('\\[', '\\]'), C('\n'), C('\n'), T(), C('\n'))],
+        # ten and more argument groups; named environments inside math
+        [cmd(N(), *[br(C(ch)) for ch in 'abcdefghijk']), T()],
+        [env(N(), [br(C(ch)) for ch in 'abcdefghij'], T())],
+        [math(D, env('array', [br(C('cc'))], C('a & b'), {'k': 'lbr', 's': '\\\\'}, T()), T())],
+        [{'k': 'mathenv', 'name': 'equation', 'body': [{'k': 'mathenv', 'name': 'split', 'body': [T(), C(' &= b')]}, T()]}],
+        [math(('\\[', '\\]'), env(N(), [], T()), cmd(N(), br(env('cases', [], T()))))],
         # square brackets that do not follow a command are plain text
         [env(N(), [], T()), C('[h]'), T()],
         [{'k': 'group', 'body': [T()]}, C('[0,1)'), env(N(), [br(T())], C('x]'), T())],
